@@ -44,6 +44,7 @@ structure Cfg where
   voidTags : List String := ["!doctype", "area", "base", "br", "col", "embed", "hr", "img", "input", "link", "meta", "source", "track", "wbr"]
   tagPrefix : String := "t:"
   attrPrefix : String := ":"
+  fixed : Bool := false          -- model of the tree with the §9 repairs 1,3,4,5,6 applied
 
 inductive LoadRes (α : Type)
   | ok (a : α) | err | panic | unsupported
@@ -134,7 +135,9 @@ def buildTree (cfg : Cfg) (fileIdx : Nat) (toks : List HS.Token) : LoadRes Node 
               if dead then .panic else
               match stack with
               | fr :: rest => go (i+1) rest (.mk fr.d cur.reverse (some value) :: fr.before) rootEnd dead ts
-              | [] => go (i+1) [] cur (some value) true ts
+              | [] =>
+                if cfg.fixed then go (i+1) [] (.mk d [] none :: cur) rootEnd dead ts
+                else go (i+1) [] cur (some value) true ts
           else
             if dead then .panic else go (i+1) (⟨d, cur⟩ :: stack) [] rootEnd dead ts
       | .tag, none => .err
@@ -284,7 +287,7 @@ def extractRange (s0 : String) : String × String × String :=
 def weight (cfg : Cfg) (a : CAttr) : Int × Int :=
   if a.name.startsWith cfg.attrPrefix then
     let cmd := sDrop a.name cfg.attrPrefix.length
-    (0, if cmd == "with" then -4 else if cmd == "if" then -3 else if cmd == "range" then -2 else if cmd == "remove" then -1 else 0)
+    (0, if cmd == "with" then -4 else if cmd == "if" || (cfg.fixed && ["else-if", "elseif", "elif", "else"].contains cmd) then -3 else if cmd == "range" then -2 else if cmd == "remove" then -1 else 0)
   else (1, 0)
 
 /-- SortedAttr for comparators that are strict weak orders (plain attributes are not named with/if/range/remove) -/
@@ -398,6 +401,7 @@ partial def processTagStart (m : Mgr) (node : Node) (sibs : List Node) (idx : Na
     if a.name.startsWith cfg.attrPrefix then
       let cmd := sDrop a.name cfg.attrPrefix.length
       if cmd == "with" then
+        if cfg.fixed && (← getCur d.id) != 0 then continue
         match ← withAssign a data with
         | some fr => data := fr :: data
         | none => return (data, opt, "")
@@ -411,7 +415,9 @@ partial def processTagStart (m : Mgr) (node : Node) (sibs : List Node) (idx : Na
         if cmd != "if" then
           match ← getNc (prevSiblingTag sibs idx) with
           | none => fail "unexpectedElse"
-          | some p => doEval := !p
+          | some p =>
+            doEval := !p
+            if cfg.fixed && p then setNc d.id true
         if doEval && !(← isFailed) then
           let r ← attrEvaluate a data
           if !(← isFailed) then
@@ -421,6 +427,7 @@ partial def processTagStart (m : Mgr) (node : Node) (sibs : List Node) (idx : Na
               tokenBuf := tokenBuf ++ (← execute m node sibs idx data {})
         setCur d.id ((← getCur d.id) &&& 2)
         if ← isFailed then return (data, opt, "")
+        if cfg.fixed then return (data, opt, tokenBuf)
       else if cmd == "range" then
         match a.value with
         | none => fail "attrValueExpected"; return (data, opt, "")
@@ -458,6 +465,7 @@ partial def processTagStart (m : Mgr) (node : Node) (sibs : List Node) (idx : Na
                   count := count + 1
           setCur d.id ((← getCur d.id) &&& 1)
           if ← isFailed then return (data, opt, "")
+          if cfg.fixed then return (data, opt, tokenBuf)
       else if cmd == "remove" then
         let av := a.value.getD ""
         if av == "\"all\"" || av == "'all'" then opt := { noPrint := true, child := .nop }
@@ -484,7 +492,8 @@ partial def processTagStart (m : Mgr) (node : Node) (sibs : List Node) (idx : Na
       else
         let r ← attrEvaluate a data
         if ← isFailed then return (data, opt, "")
-        if !opt.noPrint then tagBuf := tagBuf ++ " " ++ cmd ++ "=" ++ (escapeHtml r).quote   -- %q ≈ String.quote for printable ASCII
+        if !opt.noPrint then
+          tagBuf := tagBuf ++ " " ++ cmd ++ "=" ++ (if cfg.fixed then "\"" ++ escapeHtml r ++ "\"" else (escapeHtml r).quote)
     else
       if !(attrs.any fun b => b.name == cfg.attrPrefix ++ a.name) then
         if !opt.noPrint then
@@ -549,7 +558,7 @@ def renderOp (j : Json) : Json :=
   let files := (j.getObjValAs? (Array (Array String)) "files").toOption.getD #[]
   let tplName := (j.getObjValAs? String "tpl").toOption.getD ""
   let data := (j.getObjVal? "data").toOption.getD .null
-  let cfg : Cfg := {}
+  let cfg : Cfg := { fixed := (j.getObjValAs? Bool "fixed").toOption.getD false }
   let rec load (i : Nat) (fs : List (Array String)) (tpls : List (String × Tpl)) : LoadRes (List (String × Tpl)) :=
     match fs with
     | [] => .ok tpls
